@@ -127,6 +127,21 @@ def cases(ctx):
         out.append({"kind": "width-per-application", "rom": "low", "spec": {"t": "twin", "labels": True},
                     "src": f"*={org:#08x}\n.macro zz_st(v, d) {{\nlda #v\nsta d\n}}\nzz_st({a1})\nzz_st({a2})\nzz_e:\n.dl zz_e\n",
                     "twin_src": f"*={org:#08x}\n" + body_of(a1) + body_of(a2) + "zz_e:\n.dl zz_e\n"})
+    # one application mixing an argument known only to the passes (a label) with a constant the body tests at expansion
+    # time (.if, .for bound, recursion counter): each argument is bound on its own
+    for lab_first in (True, False):
+        params, args = ("target, far", "zz_h, {f}") if lab_first else ("far, target", "{f}, zz_h")
+        for f in (1, 0):
+            out.append({"kind": "mixed-arg-kinds", "rom": "low", "spec": {"t": "twin", "labels": True},
+                        "src": (f"*={org:#08x}\n.macro zz_pt({params}) {{\n.if far {{\n.dl target\n}} else {{\n.dw target\n}}\n.for zz_k := 0, far + 1 {{\n.db zz_k\n}}\n}}\n"
+                                f"zz_pt({args.format(f=f)})\nzz_h:\nrts\n"),
+                        "twin_src": f"*={org:#08x}\n{{\n{'.dl' if f else '.dw'} zz_h\n.db 0{', 1' if f else ''}\n}}\nzz_h:\nrts\n"})
+    # a parameterless helper macro that splices a block parameter of the macro it is applied in (resolved at expansion,
+    # through the scopes of the call site), and a macro defined inside a macro body
+    out.append({"kind": "splice-through-helper", "rom": "low", "spec": {"t": "twin", "labels": False},
+                "src": (f"*={org:#08x}\n.macro zz_wrap() {{\npha\n{{{{code}}}}\npla\n}}\n.macro zz_outer(code) {{\nzz_wrap()\nnop\nzz_wrap()\n}}\n"
+                        "zz_outer({\nlda.b #1\n})\n"),
+                "twin_src": f"*={org:#08x}\npha\nlda.b #1\npla\nnop\npha\nlda.b #1\npla\n"})
     # failures
     for src in (f"*={org:#08x}\nnope(1)\n", f"*={org:#08x}\n.macro m(a, b) {{\n.db a\n}}\nm(1)\n",
                 f"*={org:#08x}\nm(1)\n.macro m(a) {{\n.db a\n}}\n", f"*={org:#08x}\n.macro m(a, b, c) {{\nnop\n}}\nm()\n",
@@ -144,7 +159,7 @@ def cases(ctx):
     out.append({"kind": "own-definition:after-other-program", "rom": "low", "earlier_src": earlier,
                 "src": f"*={org:#08x}\n.macro r(n) {{\n.db n\n}}\nr(7)\n", "twin_src": f"*={org:#08x}\n.db 7\n",
                 "spec": {"t": "twin", "labels": False}})
-    return core.mark_must_assemble(out, {'deferred-arg-names', 'width-per-application', 'recursive', 'capture', 'code-arg', 'empty-expansion', 'defined-in', 'own-definition', 'local-labels'})
+    return core.mark_must_assemble(out, {'mixed-arg-kinds', 'splice-through-helper', 'deferred-arg-names', 'width-per-application', 'recursive', 'capture', 'code-arg', 'empty-expansion', 'defined-in', 'own-definition', 'local-labels'})
 
 
 def instantiate(gen_q):
